@@ -12,7 +12,8 @@ import vlib, posgen
 
 LIGHT = ['pos3', 'ep_hpin', 'ep_hpin_b', 'ep_dpin', 'ep_dpin2', 'ep_disc', 'ep_check', 'ep_evade', 'ep_two', 'promo_check', 'double_check',
          'mate0', 'stalemate', 'mate_in_1', 'mated_in_1', 'mate_in_2', 'kq_k', 'kr_k', 'hmc98', 'hmc99', 'hmc100', 'pins', 'pins2', 'endgame',
-         'castle_free', 'castle_free_b', 'castle_att_f1', 'castle_knight', 'promo_all', 'promo_b', 'double_check2', 'castle_rights_subset']
+         'castle_free', 'castle_free_b', 'castle_att_f1', 'castle_knight', 'promo_all', 'promo_b', 'double_check2', 'castle_rights_subset',
+         'smother', 'promo_mate', 'kq_mate1', 'kr_mate1', 'kr_mate2', 'kq_mated2', 'backrank_b']
 HEAVY = ['start', 'kiwipete', 'pos4', 'pos4m', 'pos5', 'pos6', 'cmk', 'sb4', 'max218', 'killer']
 
 def code_hash():
